@@ -15,6 +15,9 @@
 //          s=<status> rh=<hlist> rb=<body> rfr=<cl|ch>
 //      hlist = - | Name~<enc v>|<enc v>;Name~…      (canonical names; values in line order)
 //      body  = lit:<enc bytes> | gen:<seed>:<len>   (gen = deterministic pseudo-random bytes)
+//              | gz:<seed>:<len> | zs:<seed>:<len>  (request only: the gzip / zstd encoding of gen:<seed>:<len>)
+//      received bodies are named by comparing bytes with the op's token: the token itself when equal,
+//      trunc:<len>:<sha1> when a strict prefix of it, else lit:… (≤ 96 B) or raw:<len>:<sha1>
 // ext: unescape <enc path> = <enc decoded path>     (net/url, external function for the model)
 // obs: n=<requests upstream received> um=<method> uu=<enc RequestURI> uh=<hlist> ub=<body>
 //      cs=<status> ch=<hlist> cb=<body>             (u* = the first upstream request; - when n=0)
@@ -40,6 +43,7 @@ package main
 import (
 	"bufio"
 	"bytes"
+	"compress/gzip"
 	"crypto/sha1"
 	"fmt"
 	"io"
@@ -56,6 +60,7 @@ import (
 	"github.com/honeycombio/refinery/collect"
 	"github.com/honeycombio/refinery/config"
 	kit "github.com/honeycombio/refinery/internal/verifkit"
+	"github.com/klauspost/compress/zstd"
 	"github.com/honeycombio/refinery/logger"
 	"github.com/honeycombio/refinery/metrics"
 	"github.com/honeycombio/refinery/route"
@@ -134,36 +139,55 @@ func has(hs []hdr, name string) bool {
 	return false
 }
 
+var zstdEnc, _ = zstd.NewWriter(nil, zstd.WithEncoderConcurrency(1))
+
+func genBytes(seedS, lenS string) []byte {
+	seed, _ := strconv.ParseUint(seedS, 10, 64)
+	n, _ := strconv.Atoi(lenS)
+	r := kit.NewRng(seed)
+	b := make([]byte, 0, n+8)
+	for len(b) < n {
+		x := r.Next()
+		for i := 0; i < 8; i++ {
+			b = append(b, byte(x>>(8*i)))
+		}
+	}
+	return b[:n]
+}
+
 func expandBody(tok string) []byte {
+	f := strings.Split(tok, ":")
 	switch {
 	case strings.HasPrefix(tok, "lit:"):
 		return []byte(kit.Dec(tok[4:]))
-	case strings.HasPrefix(tok, "gen:"):
-		f := strings.Split(tok, ":")
-		if len(f) != 3 {
-			return nil
-		}
-		seed, _ := strconv.ParseUint(f[1], 10, 64)
-		n, _ := strconv.Atoi(f[2])
-		r := kit.NewRng(seed)
-		b := make([]byte, 0, n+8)
-		for len(b) < n {
-			x := r.Next()
-			for i := 0; i < 8; i++ {
-				b = append(b, byte(x>>(8*i)))
-			}
-		}
-		return b[:n]
+	case len(f) == 3 && f[0] == "gen":
+		return genBytes(f[1], f[2])
+	case len(f) == 3 && f[0] == "gz":
+		var out bytes.Buffer
+		zw := gzip.NewWriter(&out)
+		zw.Write(genBytes(f[1], f[2]))
+		zw.Close()
+		return out.Bytes()
+	case len(f) == 3 && f[0] == "zs":
+		return zstdEnc.EncodeAll(genBytes(f[1], f[2]), nil)
 	}
 	return nil
 }
 
-// nameBody gives received bytes a canonical token: the candidate token whose expansion they equal,
-// else a literal (short) or length+digest (long).
+// nameBody gives received bytes a canonical token by comparing them with what the op's token stands
+// for: the token itself when equal, trunc:… when a strict prefix of it, else a literal (short) or
+// length+digest (long).  Bodies are never printed beyond 96 bytes.
 func nameBody(b []byte, candidates ...string) string {
 	for _, c := range candidates {
-		if strings.HasPrefix(c, "gen:") && bytes.Equal(expandBody(c), b) {
+		if strings.HasPrefix(c, "lit:") {
+			continue
+		}
+		e := expandBody(c)
+		if bytes.Equal(e, b) {
 			return c
+		}
+		if len(b) > 0 && len(b) < len(e) && bytes.HasPrefix(e, b) {
+			return fmt.Sprintf("trunc:%d:%x", len(b), sha1.Sum(b))[:40]
 		}
 	}
 	if len(b) <= 96 {
@@ -648,6 +672,29 @@ func genOp(r *kit.Rng) string {
 		hs = append(hs, hdr{"X-Forwarded-For", vs})
 	}
 	body := genBody(r, method == "GET" || method == "HEAD" || method == "DELETE" || method == "OPTIONS" || method == "get")
+	// Content-Encoding on the request: the proxy must relay the bytes as they are, whatever the label says
+	if body != "lit:%" && r.Chance(22) {
+		ce := ""
+		switch r.Pick(28, 24, 16, 10, 12, 10) {
+		case 0:
+			ce, body = "gzip", fmt.Sprintf("gz:%d:%d", r.Intn(1<<30), 1+r.Intn(96*1024))
+		case 1:
+			ce, body = "zstd", fmt.Sprintf("zs:%d:%d", r.Intn(1<<30), 1+r.Intn(96*1024))
+		case 2:
+			ce = "gzip" // label on bytes that are not gzip
+		case 3:
+			ce = "zstd" // label on bytes that are not zstd
+		case 4:
+			ce = "deflate"
+		case 5:
+			ce = "identity"
+		}
+		hs = append(hs, hdr{"Content-Encoding", []string{ce}})
+	} else if method != "GET" && method != "HEAD" && r.Chance(2) {
+		// around the 5,000,000-byte cap of the router's pooled body reader (event/batch handlers)
+		sizes := []int{4_999_999, 5_000_000, 5_000_001, 6 << 20}
+		body = fmt.Sprintf("gen:%d:%d", r.Intn(1<<30), sizes[r.Intn(len(sizes))])
+	}
 	fr := "cl"
 	if r.Chance(20) {
 		fr = "ch"
